@@ -28,6 +28,24 @@ func init() {
 
 // depsOf computes the sources a value depends on: parameter names, fields of
 // a *Request parameter ("req.Method"), fields of a local struct ("auth.Nonce").
+// c10Canon names Verify's parameters by position and its Authorization local by type, so that the
+// rule does not depend on what they are called.
+var c10Canon = map[ssa.Value]string{}
+
+func c10ParamName(x *ssa.Parameter) string {
+	if n, ok := c10Canon[x]; ok {
+		return n
+	}
+	return x.Name()
+}
+
+func c10AllocName(x *ssa.Alloc) string {
+	if n, ok := c10Canon[x]; ok {
+		return n
+	}
+	return x.Comment
+}
+
 func depsOf(v ssa.Value, out map[string]bool, seen map[ssa.Value]bool, d int) {
 	if v == nil || seen[v] || d > 40 {
 		return
@@ -35,7 +53,7 @@ func depsOf(v ssa.Value, out map[string]bool, seen map[ssa.Value]bool, d int) {
 	seen[v] = true
 	switch x := v.(type) {
 	case *ssa.Parameter:
-		out[x.Name()] = true
+		out[c10ParamName(x)] = true
 	case *ssa.Const, *ssa.Global, *ssa.Function, *ssa.Builtin:
 	case *ssa.UnOp:
 		if fa, ok := x.X.(*ssa.FieldAddr); ok && x.Op == token.MUL {
@@ -43,12 +61,12 @@ func depsOf(v ssa.Value, out map[string]bool, seen map[ssa.Value]bool, d int) {
 			switch b := fa.X.(type) {
 			case *ssa.Parameter:
 				if f != nil {
-					out[b.Name()+"."+f.Name()] = true
+					out[c10ParamName(b)+"."+f.Name()] = true
 					return
 				}
 			case *ssa.Alloc:
-				if f != nil && b.Comment != "" {
-					out[b.Comment+"."+f.Name()] = true
+				if f != nil && c10AllocName(b) != "" {
+					out[c10AllocName(b)+"."+f.Name()] = true
 					return
 				}
 			}
@@ -74,6 +92,24 @@ func depsOf(v ssa.Value, out map[string]bool, seen map[ssa.Value]bool, d int) {
 	}
 }
 
+// c10BindCanon: Verify(req, user, pass, methods, realm, nonce) by position; the local of type
+// headers.Authorization is "auth".
+func c10BindCanon(fn *ssa.Function) {
+	names := []string{"req", "user", "pass", "methods", "realm", "nonce"}
+	for i, prm := range fn.Params {
+		if i < len(names) {
+			c10Canon[prm] = names[i]
+		}
+	}
+	for _, b := range fn.Blocks {
+		for _, in := range b.Instrs {
+			if al, ok := in.(*ssa.Alloc); ok && strings.HasSuffix(core.Deref(al.Type()).String(), "headers.Authorization") {
+				c10Canon[al] = "auth"
+			}
+		}
+	}
+}
+
 // c10ParamInfluence: on every path of auth.Verify that accepts, each expected
 // parameter (and each received field) is compared.
 func c10ParamInfluence(c *Ctx) {
@@ -83,6 +119,7 @@ func c10ParamInfluence(c *Ctx) {
 	if !r.Anchor("C10/PARAM-INFLUENCE", "pkg/auth.Verify", fn != nil) {
 		return
 	}
+	c10BindCanon(fn)
 	type pathRes struct {
 		arm   string
 		deps  map[string]bool
@@ -125,7 +162,7 @@ func c10ParamInfluence(c *Ctx) {
 		}
 		return out
 	}
-	ex := &pathExplorer{budget: 200000}
+	ex := &pathExplorer{budget: 200000, anywhere: true}
 	ex.inline = func(h *ssa.Function) bool {
 		if h.Pkg != fn.Pkg {
 			return false
@@ -150,8 +187,8 @@ func c10ParamInfluence(c *Ctx) {
 				for k := range depsThrough(st.(pst), call.Call.Args[i]) {
 					names = append(names, k)
 				}
-				if al, ok := call.Call.Args[i].(*ssa.Alloc); ok && al.Comment != "" {
-					names = []string{al.Comment} // the address of a named local: the local itself
+				if al, ok := call.Call.Args[i].(*ssa.Alloc); ok && c10AllocName(al) != "" {
+					names = []string{c10AllocName(al)} // the address of a named local: the local itself
 				}
 				sort.Strings(names)
 				if len(names) > 0 {
@@ -539,7 +576,7 @@ func c10MethodGate(c *Ctx) {
 	}
 	nAccept, nBad := 0, 0
 	firstBad := ""
-	ex := &pathExplorer{budget: 200000}
+	ex := &pathExplorer{budget: 200000, anywhere: true}
 	ex.inline = func(h *ssa.Function) bool {
 		return h.Pkg == fn.Pkg && hashOfFn(h) == "" // helpers of pkg/auth, except the hash helpers themselves
 	}
